@@ -381,7 +381,7 @@ def impl_connect_out(case, obs):
 # ---------- generators ----------
 def gen_server_caps(rng):
     caps = []
-    v10 = rng.choice([None, B10, B10X, B10]); v11 = rng.choice([None, None] + V11 + [B11, B11X])
+    v10 = rng.choice([None, B10, B10X, B10]); v11 = rng.choice([None, None, None, None] + V11 + [B11, B11X])
     if v10: caps.append(v10)
     if v11: caps.append(v11)
     for _ in range(rng.choice([0, 1, 2, 4])): caps.append(rng.choice(PAD))
